@@ -415,9 +415,30 @@ impl<R: Read + Seek> Seek for CompressionLayerReader<'_, R> {
         // Seeking may instantiate a decompressor, and therefore position the
         // inner layer at the end of the asked position's compressed block
         match &self.sizes_info {
-            Some(_sizes_info) => {
+            Some(sizes_info) => {
                 match pos {
                     SeekFrom::Start(pos) => {
+                        // Check the target before touching the state, to keep the
+                        // reader usable if the seek is refused
+                        let end_pos = sizes_info.max_uncompressed_pos();
+                        if pos > end_pos {
+                            // Seeking past the end is unsupported
+                            return Err(Error::EndOfStream.into());
+                        }
+                        if matches!(self.state, CompressionLayerReaderState::Empty) {
+                            return Err(Error::WrongReaderState(
+                                "[Compression Layer] Should never happens, unless an error already occurs before"
+                                    .to_string(),
+                            )
+                            .into());
+                        }
+                        if pos == end_pos {
+                            // There is no block to decompress at the end of the
+                            // stream; next reads will return 0
+                            self.underlayer_pos = pos;
+                            return Ok(pos);
+                        }
+
                         // Find the right block
                         let inside_block = pos % u64::from(UNCOMPRESSED_DATA_SIZE);
                         let rounded_pos = pos - inside_block;
